@@ -296,6 +296,12 @@ func c16Items() []c16Item {
 		{b: fr(0x0204, "3001"), name: "DescriptionRes-DIB-beyond-data"},
 		{b: fr(0x0421, "04"), name: "TunnelRes-1-octet-body"},
 		{b: hx("0610 0421 0008 04"), tcpFatal: true, name: "TunnelRes-total-length-exceeds-frame"},
+		// datagrams that were cut off although their header announces the full frame: whatever follows
+		// the received octets in the receive buffer is left over from an earlier datagram and belongs
+		// to no frame (after a TunnelRes / TunnelReq the leftover would complete them to valid frames)
+		{b: fs[1][:6], tcpFatal: true, name: "TunnelRes-cut-behind-the-header"},
+		{b: fs[1][:9], tcpFatal: true, name: "TunnelRes-cut-before-the-status"},
+		{b: fs[2][:10], tcpFatal: true, name: "TunnelReq-cut-behind-the-connection-header"},
 		{b: hx("0610 0421 0000"), tcpFatal: true, name: "total-length-0"},
 		{b: hx("0610 0421 0003"), tcpFatal: true, name: "total-length-3"},
 		{b: hx("0610"), tcpFatal: true, name: "truncated-header"},
@@ -833,4 +839,128 @@ func init() {
 	// "the outcome is a function of the input bytes alone" for bytes that reach the decoder through
 	// the stream receiver: the same frames, however the stream is cut into segments
 	reg("both", "C01-tcp-receiver-2cuts-upto2frames", "C01", 0, -1, c16TCPSeg(0, 2), false)
+}
+
+// ---- one Send per service type ----
+
+// c16SendEach: "every Send emits exactly one complete well-formed frame" for values of every service
+// type the library encodes, among them the ones with a variable number of variable-length parts
+// (description responses with 0..3 further description blocks of different and of equal sizes, in
+// both orders; search responses; telegrams with additional information). The datagram / the run of
+// bytes that leaves the socket is judged without the library's encoder: its header must announce
+// its length, and the library's decoder must turn it back into the value that was sent.
+func c16SendEach(tcp bool) func() {
+	return func() {
+		var sock *knxnet.TunnelSocket
+		var ep *vnet.Endpoint
+		if tcp {
+			sock, ep = dialTCP()
+		} else {
+			sock, ep = dialUDP()
+		}
+		ep.OnWrite = func(w vnet.WriteRec) { mc.Log(Wrote{hex.EncodeToString(w.Data)}) }
+		dev := knxnet.DeviceInformationBlock{Type: 1, Medium: 2, Source: 0x1105, HardwareAddr: []byte{2, 4, 6, 8, 10, 12}, FriendlyName: "unit"}
+		fam := knxnet.SupportedServicesDIB{Type: 2, Families: []knxnet.ServiceFamily{{Type: 2, Version: 1}, {Type: 4, Version: 1}}}
+		blk := func(t knxnet.DescriptionType, n int) knxnet.UnknownDescriptionBlock {
+			d := make([]byte, n)
+			for i := range d {
+				d[i] = byte(int(t)*16 + i)
+			}
+			return knxnet.UnknownDescriptionBlock{Type: t, Data: d}
+		}
+		descr := func(bs ...knxnet.UnknownDescriptionBlock) *knxnet.DescriptionRes {
+			return &knxnet.DescriptionRes{DeviceHardware: dev, SupportedServices: fam, UnknownBlocks: bs}
+		}
+		host := knxnet.HostInfo{Protocol: knxnet.UDP4, Address: knxnet.Address{10, 0, 0, 7}, Port: 3671}
+		vals := []knxnet.ServicePackable{
+			&knxnet.ConnReq{Layer: knxnet.TunnelLayerData, Control: host, Tunnel: host},
+			&knxnet.ConnStateReq{Channel: 3, Control: host},
+			&knxnet.DiscReq{Channel: 3, Control: host},
+			&knxnet.DiscRes{Channel: 3, Status: 0},
+			&knxnet.TunnelRes{Channel: 3, SeqNumber: 9, Status: 0},
+			&knxnet.TunnelReq{Channel: 3, SeqNumber: 9, Payload: ldata(1)},
+			&knxnet.TunnelReq{Channel: 3, SeqNumber: 10, Payload: c12FullFrame(1, c12Shape{254, 255})},
+			&knxnet.RoutingInd{Payload: ldata(20)},
+			&knxnet.SearchReq{HostInfo: host},
+			&knxnet.DescriptionReq{HostInfo: host},
+			&knxnet.SearchRes{Control: host, DescriptionB: knxnet.DescriptionBlock{DeviceHardware: dev, SupportedServices: fam}},
+			descr(),
+			descr(blk(3, 14)),
+			descr(blk(3, 14), blk(5, 2)),
+			descr(blk(5, 2), blk(3, 14)),
+			descr(blk(3, 6), blk(4, 6)),
+			descr(blk(3, 2), blk(4, 6), blk(0xFE, 12)),
+			descr(blk(0xFE, 12), blk(4, 6), blk(3, 2)),
+		}
+		for i, v := range vals {
+			mc.Log(SendEach{i, fmt.Sprintf("%T", v), dumpSvc(v)})
+			err := sock.Send(v)
+			mc.Log(Ret{"SockSend", i, errStr(err), mc.Now()})
+		}
+		sock.Close()
+	}
+}
+
+// SendEach is logged before every Send of c16SendEach: the value in a rendering that the decoded
+// frame is compared with.
+type SendEach struct {
+	I    int
+	Type string
+	Dump string
+}
+
+func (s SendEach) String() string { return fmt.Sprintf("SEND-EACH #%d %s %s", s.I, s.Type, s.Dump) }
+
+func dumpSvc(v interface{}) string { return deepDump(v) }
+
+func c16SendEachOracle(tr *mc.Trace) []h.Violation {
+	vs := generic(tr, "C16", true)
+	bad := func(class, format string, a ...interface{}) {
+		vs = append(vs, h.Violation{Class: "C16:" + class, Msg: fmt.Sprintf(format, a...)})
+	}
+	var cur *SendEach
+	writes := 0
+	flush := func() {
+		if cur != nil && writes != 1 {
+			bad("send-not-one-write", "Send #%d (%s) caused %d writes on the connection, want 1", cur.I, cur.Type, writes)
+		}
+	}
+	for _, e := range tr.Log {
+		switch x := e.V.(type) {
+		case SendEach:
+			flush()
+			c := x
+			cur, writes = &c, 0
+		case Ret:
+			if x.Call == "SockSend" && x.Err != "" {
+				bad("send-error", "Send #%d failed: %s", x.ID, x.Err)
+			}
+		case Wrote:
+			writes++
+			if cur == nil {
+				continue
+			}
+			b, _ := hex.DecodeString(x.Hex)
+			if len(b) < 6 || (int(b[4])<<8|int(b[5])) != len(b) {
+				bad("datagram-length-differs-from-header", "Send #%d (%s): %d octets left the socket, the header announces %d: %s", cur.I, cur.Type, len(b), int(b[4])<<8|int(b[5]), x.Hex)
+				continue
+			}
+			var got knxnet.Service
+			n, err := knxnet.Unpack(b, &got)
+			if err != nil || int(n) != len(b) {
+				bad("sent-frame-not-well-formed", "Send #%d (%s, %s) put %s on the wire; the decoder reads %d of its %d octets: %v", cur.I, cur.Type, cur.Dump, x.Hex, n, len(b), err)
+				continue
+			}
+			if d := dumpSvc(got); d != cur.Dump {
+				bad("sent-frame-is-another-value", "Send #%d: the value %s left the socket as %s, which decodes to %s", cur.I, cur.Dump, x.Hex, d)
+			}
+		}
+	}
+	flush()
+	return vs
+}
+
+func init() {
+	register("both", &h.Scenario{Name: "C16-udp-one-send-per-service-type", Prop: "C16", P: 0, F: 0, D: -1, Run: c16SendEach(false), Check: c16SendEachOracle})
+	register("both", &h.Scenario{Name: "C16-tcp-one-send-per-service-type", Prop: "C16", P: 0, F: 0, D: -1, Run: c16SendEach(true), Check: c16SendEachOracle})
 }
